@@ -365,3 +365,75 @@ mod proofs {
         }
     }
 }
+
+// ---------------- C03: RLN::recover_id_secret — gate, share selection, output ----------------
+/// Recording stub of `compute_id_secret` (its algebra is Engine M's obligation c03_interpolation):
+/// remembers the two shares and returns a nondeterministic Ok(arbitrary canonical element) / Err.
+pub static mut CIS_CALLS: u32 = 0;
+pub static mut CIS_SHARES: [[u64; 4]; 4] = [[0; 4]; 4]; // x1, y1, x2, y2
+pub static mut CIS_RET: [u64; 4] = [0; 4];
+pub static mut CIS_OK: bool = false;
+#[cfg(kani)]
+pub fn spy_compute_id_secret(share1: (Fr, Fr), share2: (Fr, Fr)) -> Result<Fr, String> {
+    unsafe {
+        CIS_CALLS += 1;
+        CIS_SHARES = [share1.0.into_bigint().0, share1.1.into_bigint().0, share2.0.into_bigint().0, share2.1.into_bigint().0];
+        let v = any_canon(&mut KaniSrc);
+        CIS_RET = v;
+        CIS_OK = kani::any();
+        if CIS_OK { Ok(Fr::from_bigint(ark_ff::BigInt::new(v)).unwrap()) } else { Err(String::new()) }
+    }
+}
+
+#[cfg(kani)]
+mod proofs_c03 {
+    use super::*;
+
+    fn limb(b: &[u8], k: usize) -> u64 {
+        u64::from_le_bytes([b[8 * k], b[8 * k + 1], b[8 * k + 2], b[8 * k + 3], b[8 * k + 4], b[8 * k + 5], b[8 * k + 6], b[8 * k + 7]])
+    }
+
+    /// Two full-length messages with arbitrary content. Oracle: the external-nullifier gate; the
+    /// interpolation is asked exactly once for exactly the (x, y) fields of message 1 and message 2;
+    /// whatever secret it returns (zero included) is written as its 32-byte encoding; an
+    /// interpolation error (degenerate pair) yields an error and nothing written, never a crash.
+    #[kani::proof]
+    #[kani::unwind(12)]
+    #[kani::stub(crate::utils::bytes_le_to_fr, bytes_le_to_fr_contract)]
+    #[kani::stub(crate::utils::fr_to_bytes_le, fr_to_bytes_le_contract)]
+    #[kani::stub(crate::hashers::poseidon_hash, toy_poseidon)]
+    #[kani::stub(crate::protocol::compute_id_secret, spy_compute_id_secret)]
+    fn c03_recover_logic() {
+        let rln = mk_rln(0);
+        let b1: [u8; 288] = kani::any();
+        let b2: [u8; 288] = kani::any();
+        let mut out: Vec<u8> = Vec::new();
+        let r = rln.recover_id_secret(&b1[..], &b2[..], &mut out);
+        let (e1, e2) = (decode_at(&b1, 160), decode_at(&b2, 160));
+        unsafe {
+            if !ueq(&e1, &e2) {
+                assert!(r.is_ok() && out.is_empty(), "C03: recovery across different external nullifiers reports no secret");
+            } else {
+                assert!(CIS_CALLS == 1, "C03: one interpolation per recovery");
+                assert!(ueq(&CIS_SHARES[0], &decode_at(&b1, 192)) && ueq(&CIS_SHARES[1], &decode_at(&b1, 224)), "C03: share 1 is the (x, y) pair carried by message 1");
+                assert!(ueq(&CIS_SHARES[2], &decode_at(&b2, 192)) && ueq(&CIS_SHARES[3], &decode_at(&b2, 224)), "C03: share 2 is the (x, y) pair carried by message 2");
+                if CIS_OK {
+                    assert!(r.is_ok(), "C03: a recovered secret is reported");
+                    assert!(out.len() == 32, "C03: exactly one 32-byte secret is written, whatever its value");
+                    if out.len() == 32 {
+                        assert!(limb(&out, 0) == CIS_RET[0] && limb(&out, 1) == CIS_RET[1] && limb(&out, 2) == CIS_RET[2] && limb(&out, 3) == CIS_RET[3],
+                                "C03: the written bytes encode exactly the interpolated secret");
+                    }
+                } else {
+                    assert!(r.is_err() && out.is_empty(), "C03: a degenerate pair yields an error and nothing written");
+                }
+            }
+            kani::cover!(!ueq(&e1, &e2), "different external nullifiers");
+            kani::cover!(ueq(&e1, &e2) && CIS_OK && out.len() == 32, "secret written");
+            kani::cover!(ueq(&e1, &e2) && !CIS_OK, "degenerate pair");
+        }
+        core::mem::forget(r);
+        core::mem::forget(out);
+        core::mem::forget(rln);
+    }
+}
